@@ -16,3 +16,28 @@ for _p in sorted(glob.glob(os.path.join(_here, 'reg_*.py'))):
         PROP_TEXT.setdefault(_k, []).append(_v)
 _names = [h.name for h in HARNESSES]
 assert len(_names) == len(set(_names)), 'duplicate harness names: %s' % sorted(n for n in _names if _names.count(n) > 1)
+
+# ---------------------------------------------------------------------------------------------------
+# C05 (memory safety) and C15 (no mutable globals / determinism / reset == fresh) are unions over the
+# memory-safety and frame obligations of *all* harnesses (thorough tier: every harness that lists them
+# under `also`).  The quick tier runs a representative, fast subset: one or two harnesses per code family
+# whose `is_fresh` sizes are exact (C05) resp. whose frame clause and init/reset postconditions carry the
+# statement (C15).
+QUICK_UNION = {
+    'C05': ['mzd_sound', 'crc16_t10dif_copy_base', 'crc32_iscsi_base', 'adler32_base_safety', 'xor_gen_base',
+            'pq_gen_base', 'gf_vect_mul_base', 'ec_encode_data_base', 'ec_encode_data_update_base',
+            'gf_vect_mul_init', 'fixed_size_read', 'fixed_size_read_full_range', 'buffer_header_copy',
+            'string_header_copy', 'zlib_write_header', 'gzip_write_header_c', 'compare258',
+            'decode_literal_block', 'inflate_in_load', 'isal_deflate_body_base_memsafe',
+            'isal_deflate_finish_base_memsafe', 'isal_deflate_hash_base', 'bb_write_bits', 'sync_flush',
+            'write_type0_header', 'set_dict', 'process_dict', 'isal_inflate_set_dict', 'write_rl_zero'],
+    'C15': ['gf_mul', 'crc64_ecma_refl_base', 'xor_gen_base', 'zlib_write_header', 'create_hufftables_icf_frame',
+            'process_dict', 'reset_dict', 'set_dict', 'isal_inflate_init', 'isal_inflate_reset',
+            'huff_set_hufftables', 'update_state', 'reset_match_history', 'sync_flush'],
+}
+_by_name = {h.name: h for h in HARNESSES}
+for _pid, _names in QUICK_UNION.items():
+    for _n in _names:
+        _h = _by_name.get(_n)
+        if _h is not None and _h.tier == 'quick' and _pid not in _h.props:
+            _h.props.append(_pid)
